@@ -1532,8 +1532,29 @@ impl Sim {
 }
 
 /// Model a load; `current` is the real atomic's (newest) value.  Returns the value read.
+/// Freed blocks are filled with 0xDD and never reused during a run (alloc.rs): a shim atomic whose
+/// word is all 0xDD lives in freed memory.  (No value the library stores has that shape: queue
+/// words use 15 bits, counters never get that far, pointers are never 0xDD..DD.)
+#[inline]
+fn poison_check(addr: usize, current: u64) {
+    if current == 0xDDDD || current == 0xDDDD_DDDD || current == 0xDDDD_DDDD_DDDD_DDDD {
+        poisoned(addr, current);
+    }
+}
+
+#[cold]
+fn poisoned(addr: usize, current: u64) {
+    let prop = {
+        let p = shm::get_str(&shm::get().crash_prop);
+        if p.is_empty() { "C01".to_string() } else { p }
+    };
+    let me = sim().cur;
+    report(&prop, "atomic-operation-on-freed-memory", &format!("T{} performs an atomic operation on address {:#x} whose word is {:#x}: the object it belongs to has been freed (freed memory is poisoned and never reused during a run)", me, addr, current), true);
+}
+
 pub fn mm_load(addr: usize, ord: Ordering, current: u64) -> u64 {
     let _g = ShimGuard::new();
+    poison_check(addr, current);
     let s = sim();
     let me = s.cur;
     s.opseq += 1;
@@ -1656,6 +1677,7 @@ fn finalize_close(s: &mut Sim, me: usize) {
 /// Model a successful read-modify-write (reads the newest message).
 pub fn mm_rmw(addr: usize, ord: Ordering, before: u64, newval: u64) {
     let _g = ShimGuard::new();
+    poison_check(addr, before);
     let s = sim();
     let me = s.cur;
     if !s.threads[me].closing.is_empty() {
@@ -1684,6 +1706,7 @@ pub fn mm_rmw(addr: usize, ord: Ordering, before: u64, newval: u64) {
 /// Model a failed CAS (a load of the newest message with the failure ordering).
 pub fn mm_cas_fail(addr: usize, ord: Ordering, current: u64) {
     let _g = ShimGuard::new();
+    poison_check(addr, current);
     let s = sim();
     let me = s.cur;
     s.ensure_init(addr, current);
